@@ -457,7 +457,7 @@ func main() {
 	r.Extra("keyword_identifiers_used", len(kwIDs))
 	r.Floor(len(kwIDs) >= 40, "fewer than 40 non-reserved keywords usable as identifiers")
 
-	n := r.N(20000, 400000)
+	n := r.N(20000, 250000)
 	const chunks = 64
 	r.Parallel("stmts", chunks, func(w int) {
 		rec := g3lib.NewRec(r)
